@@ -68,15 +68,23 @@ func genC04(t *simrt.Tape, tier string) interface{} {
 		}
 	}
 	for i := t.Draw(3); i > 0; i-- {
-		p.SrvDelay = append(p.SrvDelay, []int{0, 1, 30, 700}[t.Draw(4)])
+		p.SrvDelay = append(p.SrvDelay, []int{0, 1, 30, 700, 6000}[t.Draw(5)])
 	}
 	for i := t.Draw(3); i > 0; i-- {
-		p.CliDelay = append(p.CliDelay, []int{0, 1, 30, 700}[t.Draw(4)])
+		p.CliDelay = append(p.CliDelay, []int{0, 1, 30, 700, 6000}[t.Draw(5)])
 	}
 	p.CliMux = t.Draw(2) == 0
 	if p.Conf.Listeners[0] != "inproc" && t.Draw(2) == 0 {
 		p.Faults = benignFaults(t, 2000)
 		p.Back = benignFaults(t, 2000)
+	}
+	if p.Conf.Listeners[0] != "inproc" && t.Draw(5) == 0 {
+		// a reader that stops for longer than the transport's 5 s I/O poll behind a small send
+		// buffer: the writer runs into its socket deadline in the middle of an envelope
+		for _, f := range []*FaultSpec{&p.Faults, &p.Back} {
+			f.Capacity = []int{16, 64, 512}[t.Draw(3)]
+			f.Stalls = []StallS{{AfterBytes: int64(400 + t.Draw(3000)), ForMs: []int{5100, 7000, 12000}[t.Draw(3)]}}
+		}
 	}
 	if p.Conf.Listeners[0] == "wss" {
 		// no bounded send buffer under library-managed TLS (see DESIGN.md, limits)
@@ -147,6 +155,7 @@ func runSenders(w *World, dir string, specs []SenderSpec, snd lime.Sender) ([][]
 				recs[si] = append(recs[si], sentRec{e, err})
 				if err != nil {
 					w.Count("send-error")
+					w.Count("send-error: " + short(err.Error(), 90))
 					return
 				}
 				if sp.GapMs > 0 {
@@ -159,7 +168,7 @@ func runSenders(w *World, dir string, specs []SenderSpec, snd lime.Sender) ([][]
 }
 
 // checkDelivery compares what one side sent with what the other side's consumers saw.
-func checkDelivery(w *World, dir, transport string, recs [][]sentRec, got *sink) {
+func checkDelivery(w *World, dir, transport string, recs [][]sentRec, got *sink, all bool) {
 	sig := func(what string) string { return fmt.Sprintf("%s dir=%s transport=%s", what, dir, transport) }
 	sentOK := map[string]*Env{}
 	attempted := map[string]*Env{}
@@ -197,7 +206,7 @@ func checkDelivery(w *World, dir, transport string, recs [][]sentRec, got *sink)
 	sortStrings(okKeys)
 	for _, key := range okKeys {
 		e := sentOK[key]
-		if !seen[key] {
+		if all && !seen[key] {
 			w.Violate("C04.sent-not-delivered", sig(kindNames[e.Kind]), "%s %q was sent successfully but never delivered (session stayed established)", kindNames[e.Kind], e.ID)
 			break
 		}
@@ -382,11 +391,20 @@ func runC04(w *World, pi interface{}) {
 	if !stayed {
 		// the premise "while the session stays established" is gone (fault or defect elsewhere)
 		w.Count("session-did-not-stay-established")
-		w.Armed = false
+		// Nobody ended this session and the link was never cut: slow handlers, small buffers,
+		// fragmentation, latency and stalls are all the run contains, and the property
+		// quantifies over them. A session that ends by itself takes what was sent on it along.
+		w.Violate("C04.session-lost-without-cause", fmt.Sprintf("client=%s server=%s transport=%s", ch.State(), sch.State(), p.Conf.Listeners[0]),
+			"the session did not stay established although nobody ended it and the link was never cut (client state %s, server state %s; first send errors: c2s %q, s2c %q; delivered %d of %d c2s and %d of %d s2c)",
+			ch.State(), sch.State(), firstErr(c2sRecs), firstErr(s2cRecs), srvSink.total(), count(c2sRecs), cliSink.total(), count(s2cRecs))
+		// what was delivered before must still be right
+		tr := p.Conf.Listeners[0]
+		checkDelivery(w, "c2s", tr, c2sRecs, srvSink, false)
+		checkDelivery(w, "s2c", tr, s2cRecs, cliSink, false)
 	} else {
 		tr := p.Conf.Listeners[0]
-		checkDelivery(w, "c2s", tr, c2sRecs, srvSink)
-		checkDelivery(w, "s2c", tr, s2cRecs, cliSink)
+		checkDelivery(w, "c2s", tr, c2sRecs, srvSink, true)
+		checkDelivery(w, "s2c", tr, s2cRecs, cliSink, true)
 	}
 	fctx, fcancel := context.WithTimeout(context.Background(), 30*time.Second)
 	ch.FinishSession(fctx)
@@ -402,7 +420,18 @@ func init() {
 		Run:    runC04,
 		MaxSim: 6 * time.Hour,
 		Rule: "plans = (one listener kind of tcp/tcp+tls/ws/wss/in-process, server and client buffer sizes incl. 0, in-process queue size, encryption selector, 0-3 sender tasks per direction each with 1-40 envelopes of all four kinds from the rich generator, " +
-			"handler/consumer delays on both sides, client consuming through an EnvelopeMux or four stream readers, benign link faults: fragmentation, latency, stalls, bounded send buffer); " +
-			"oracle over the quiescent history: delivered = sent-ok as multisets, exactly once, content equal, per (sender task, kind) order; non-trivial = session established and still established at the end; distinct = distinct (plan JSON, event-log hash)",
+			"handler/consumer delays on both sides, client consuming through an EnvelopeMux or four stream readers, benign link faults: fragmentation, latency, stalls (in a fifth of the runs longer than the 5 s I/O poll, behind a 16-512 byte send buffer), bounded send buffer; handler delays up to 6 s); " +
+			"oracle over the quiescent history: delivered = sent-ok as multisets, exactly once, content equal, per (sender task, kind) order; the session nobody ended is still established at the end; non-trivial = session established and still established at the end; distinct = distinct (plan JSON, event-log hash)",
 	})
+}
+
+func firstErr(recs [][]sentRec) string {
+	for _, rs := range recs {
+		for _, r := range rs {
+			if r.err != nil {
+				return r.env.ID + ": " + r.err.Error()
+			}
+		}
+	}
+	return ""
 }
